@@ -30,6 +30,9 @@ func VerifPlainDirMap() {
 	var sum uint64
 	for i := 0; i < k; i++ {
 		e := ent{name: verifrt.String(1 + verifrt.Choose(2)), link: fakeLink(i), size: verifrt.U64() & 0x3fff}
+		if i > 0 && verifrt.Choose(2) == 1 {
+			e.link = es[i-1].link // distinct names may point at one target
+		}
 		for _, o := range es {
 			verifrt.Assume(!verifrt.StrEq(o.name, e.name))
 		}
